@@ -61,8 +61,9 @@ true_ = lambda r: r.status == "OK" and r.toks[0] == "1"
 def reject(r): return (r.status == "OK" and r.toks[0] == "0") or r.status in ("PANIC", "ERR")
 refused = lambda r: r.status in ("PANIC", "ERR")
 
-def leaf_edits(doc, rng, per_leaf=("+1", "-1", "0"), limit=None):
-    """[(label, mutated doc)] single-field perturbations of every integer leaf (+-1, zero) and swaps of neighbours"""
+def leaf_edits(doc, rng, per_leaf=("+1", "-1", "0"), limit=None, modulus=None):
+    """[(label, mutated doc)] single-field perturbations of every integer leaf (+-1, zero) and swaps of neighbours; with a modulus also
+    the other REPRESENTATIVES of the same residue (x + N, x - N), its negation as an integer (- x) and modulo N (N - x)"""
     lv = clj.leaves(doc); out = []
     idxs = list(range(len(lv)))
     if limit and len(idxs) > limit: idxs = sorted(rng.sample(idxs, limit))
@@ -74,6 +75,9 @@ def leaf_edits(doc, rng, per_leaf=("+1", "-1", "0"), limit=None):
             nv = v + 1 if e == "+1" else v - 1 if e == "-1" else v + (1 << 128) if e == "+2^128" else v + (1 << 200) if e == "+2^200" else 0
             if nv == v: continue
             out.append((name, e, clj.set_leaf(doc, path, nv)))
+        if modulus:
+            for e, nv in (("+N", v + modulus), ("-N", v - modulus), ("neg", -v), ("N-x", modulus - v)):
+                if nv != v: out.append((name, e, clj.set_leaf(doc, path, nv)))
         if k + 1 < len(lv) and lv[k + 1][1] != v:
             d2 = clj.set_leaf(clj.set_leaf(doc, path, lv[k + 1][1]), lv[k + 1][0], v)
             out.append((name, "swap", d2))
@@ -130,9 +134,21 @@ def pair_transplants(A, B, opening_key, range_key):
         out.append(("%s[%d]+%s[%d]" % (opening_key, k, range_key, k), d))
     return out
 
+def residue_edits(doc, modulus):
+    """every integer leaf replaced by another representative of the same residue (x + N, x - N), by - x and by N - x"""
+    out = []
+    for path, v in clj.leaves(doc):
+        name = ".".join(str(p) for p in path if not isinstance(p, int) and p != "CL03")
+        for e, nv in (("+N", v + modulus), ("-N", v - modulus), ("neg", -v), ("N-x", modulus - v)):
+            if nv != v: out.append((name, e, clj.set_leaf(doc, path, nv)))
+    return out
+
 def edit_label(prefix, name, e):
     """known-finding classes are keyed by the label prefix before '|'"""
     if name.endswith("randomness"): return "F9:unused-randomness-leaf|%s:%s%s" % (prefix, name, e)
+    # the verifier raises these group elements to the challenge (or to 2^T) only: for an even exponent it cannot see their sign
+    if e == "N-x" and (name.endswith(("Cx.value", "Cv.value", "Cw.value", ".F")) or name == "E"):
+        return "F19b:negated-residue|%s:%s" % (prefix, name)
     return "%s:field-edit|%s%s" % (prefix, name, e)
 
 # ====================================================================================== C14
@@ -175,6 +191,11 @@ class C14:
                         # hidden attributes sitting exactly on the end points of their range [0, 2^lm - 1]
                         if (stats["flows"] + len(U)) % 3 == 0: msgs[U[0]] = 0
                         if (stats["flows"] + len(U)) % 3 == 1: msgs[U[-1]] = 2 ** x.P["lm"] - 1
+                        # REVEALED attributes equal to 0 (first / middle of the revealed list) and to the top of the range
+                        rev0 = complement(n, U)
+                        if len(rev0) >= 2 and not trusted: msgs[rev0[0]] = 0
+                        if len(rev0) >= 3 and trusted: msgs[rev0[1]] = 0
+                        if len(rev0) == 1 and trusted: msgs[rev0[0]] = 0
                         f = issue(S, x, msgs, U, trusted, label="issue")
                         if f is None: continue
                         stats["flows"] += 1; stats["subsets"] += 1
@@ -196,8 +217,10 @@ class C14:
                         S.run([Q.vline(x, msgs, sig)], expect=true_, label="verify(unblind(blind_sign))")
                         # re-issuing after a revealed attribute changed
                         rev_idx = complement(n, U)
-                        if rev_idx:
-                            m2 = list(msgs); m2[rev_idx[0]] = Q.rmsg(rng)
+                        for upd0 in ([False, True] if len(rev_idx) >= 2 else [False]) if rev_idx else []:
+                            m2 = list(msgs); m2[rev_idx[0]] = 0 if upd0 else Q.rmsg(rng)      # ... also updated TO zero
+                            if upd0 and m2[rev_idx[1]] == 0: m2[rev_idx[1]] = Q.rmsg(rng)
+                            if m2 == msgs: continue
                             r2 = S.run(["clupdate %s %s %s %s %s %s %s %s" % (suite, zl(bs), zl([m2[i] for i in rev_idx]), zl(f["C"]), zl(x.sk), zl(x.pk), zl(x.bases), il(rev_idx))],
                                        expect="ok", label="update_signature")[0]
                             if r2.status == "OK":
@@ -240,6 +263,9 @@ class C14:
                             labs = [edit_label("zkpok", nm, e) for nm, e, _ in el]
                             stats["field_edits"] += len(lines)
                             S.run(lines, expect=reject, label=labs)
+                            if not stats.get("residue_edits"):
+                                el = residue_edits(f["zk"], N); stats["residue_edits"] = len(el)
+                                S.run([zkver_line(x, f, zk=d) for _, _, d in el], expect=reject, label=[edit_label("zkpok", nm, e) for nm, e, _ in el])
                         # sub-documents transplanted from a SECOND issuance proof for the same commitment: the two whole sigma proofs
                         # about C (proof_commited_msgs, proof_C_Ctrusted) and consistent (opening, range) pairs are what the honest prover
                         # could have drawn => accepted; every other single sub-document breaks a tie => rejected
@@ -349,6 +375,12 @@ class C15:
                         mm("other-commitment-key-N", cpk=[x.cpk[0] + dN] + x.cpk[1:])
                     mm("other-commitment-key-N", cpk=[x.cpk[1]] + x.cpk[1:])
                     mm("other-commitment-key-g0", cpk=x.cpk[:2] + [x.cpk[2] * x.cpk[1] % N] + x.cpk[3:])
+                    # every base of the commitment key is read -- at hidden AND at revealed positions
+                    for j_ in range(1, n):
+                        c2_ = list(x.cpk); c2_[2 + j_] = c2_[2 + j_] * 4 % N; mm("other-commitment-key-g%d%s" % (j_, "(revealed)" if j_ not in U else "(hidden)"), cpk=c2_)
+                        c3_ = list(x.cpk); c3_[2 + j_] = c3_[2 + j_] + 1; mm("other-commitment-key-g%d%s" % (j_, "(revealed)" if j_ not in U else "(hidden)"), cpk=c3_)
+                    if n >= 3:
+                        c4_ = list(x.cpk); c4_[3], c4_[4] = c4_[4], c4_[3]; mm("other-commitment-key-g1-g2-swapped", cpk=c4_)
                     others = [u for u in Q.all_subsets(n) if u != U and len(u) == len(U)]
                     if others:
                         U2 = others[0]
@@ -364,6 +396,9 @@ class C15:
                         el = leaf_edits(doc, rng, limit=(40 if tier == "quick" else None))
                         stats["field_edits"] += len(el)
                         S.run([spokver_line(x, d, msgs, U) for _, _, d in el], expect=reject, label=[edit_label("spok", nm, e) for nm, e, _ in el])
+                        if stats.get("residue_edits", 0) < 2 and U:
+                            el = residue_edits(doc, N); stats["residue_edits"] = stats.get("residue_edits", 0) + 1; stats["field_edits"] += len(el)
+                            S.run([spokver_line(x, d, msgs, U) for _, _, d in el], expect=reject, label=[edit_label("spok", nm, e) for nm, e, _ in el])
                     # sub-documents transplanted from a SECOND presentation of the same signature (same statement, fresh randomness):
                     # a single sub-document breaks a tie (challenge, Ce = range_proof_e.E, commitment_k = range_proof_k.E) => rejected;
                     # a CONSISTENT (opening proof, range proof) pair is what the honest prover could have drawn => accepted
@@ -468,6 +503,9 @@ class C16:
                             el = leaf_edits(doc, rng, limit=(24 if tier == "quick" else None))
                             stats["field_edits"] += len(el)
                             S.run([ver_line(d, a, b) for _, _, d in el], expect=reject, label=[edit_label("range", nm, e) for nm, e, _ in el])
+                            if stats.get("residue_edits", 0) < 3:
+                                el = residue_edits(doc, n); stats["residue_edits"] = stats.get("residue_edits", 0) + 1; stats["field_edits"] += len(el)
+                                S.run([ver_line(d, a, b) for _, _, d in el], expect=reject, label=[edit_label("range", nm, e) for nm, e, _ in el])
                         # sub-documents of a SECOND honest proof for the same commitment and interval: no single one may be moved over
                         if suite == "toy" and stats.get("subdoc_transplants", 0) < (40 if tier == "quick" else 1500) and stats["proofs"] % 4 == 1:
                             rp2 = S.run([line], expect="ok", label="triv:prove-second")[0]
@@ -508,6 +546,20 @@ class C16:
                             S.run([ver_line(rp.json(0), a, b)], expect=reject, label="out-of-range-proof-rejected")
                         elif rp.status not in ("PANIC",):
                             P.fail(S, "out-of-range-prover", "unexpected outcome " + rp.status, [str(v)])
+            # BULK completeness on the implementation alone: events of probability about 1/128 per proof -- a Fiat-Shamir digest of a square proof
+            # with a leading zero octet, a response with a leading zero octet -- must not make an honest proof fail
+            if suite == "toy":
+                nb_ = 400 if tier == "quick" else 4000; short = 0; a_, b_ = 1000, 1000 + 2**16
+                for _batch in range(nb_ // 100):
+                    vals = [rng.randrange(a_, b_ + 1) for _ in range(100)]; rs_ = [rng.getrandbits(x.P["ln"]) | (1 << (x.P["ln"] - 1)) for _ in vals]
+                    pl = ["clrpprove %s %d %s %d %d %d %d %d" % (suite, v_, zl([pow(g, v_, n) * pow(h, r_, n) % n, r_]), g, h, n, a_, b_) for v_, r_ in zip(vals, rs_)]
+                    pr_ = S.run(pl, expect="ok", label="bulk:prove", model=False)
+                    docs_ = [r_.json(0) for r_ in pr_ if r_.status == "OK"]
+                    for d_ in docs_:
+                        for sq_ in ("proof_of_square_a", "proof_of_square_b"):
+                            if clj.get(d_["proof_of_tolerance"][sq_], ("proof_ss", "challenge")) < 2**248: short += 1
+                    S.run([ver_line(d_, a_, b_) for d_ in docs_], expect=true_, label="bulk:verify(prove)", model=False)
+                stats["bulk_proofs"] = nb_; stats["bulk_short_square_challenges"] = short
             # one-sided transplant: an honest proof for the interval widened by one on ONE side, moved onto the narrower interval by
             # shifting only E_a_1 (resp. E_b_1) by g^(-2^T): the other half stays genuinely valid, one square proof is stale
             for (a, b) in ((1000, 1020), (7, 47), (2**64, 2**64 + 2**20 + 5)):
@@ -673,6 +725,7 @@ class C17:
                 msgs = [Q.rmsg(rng) for _ in range(n)]
                 sig = Q.sign(S, x, msgs)
                 if suite == "toy" and sig is not None: stats["recomputations"] += repeated_hidden_index_proofs(S, x, sig, msgs)
+                if suite == "toy" and n == 2: stats["recomputations"] += length_distinguisher(S, x, tier)
                 subsets = list(Q.all_subsets(n, nonempty=True)) if (suite == "toy" and tier != "quick") else [[0], list(range(n))]
                 for U in subsets:
                   for trusted in (False, True):
@@ -839,6 +892,31 @@ def many_attribute_proofs(S, tier):
             q_, r_ = masking_attack(S, doc, [("c(spok)", clj.get(sp, ("challenge",)))], secrets, "spok[%d attributes, hidden %s]" % (n, U)); cnt += q_
     return cnt
 
+def length_distinguisher(S, x, tier):
+    """the two-candidate attack by LENGTH: proofs about a hidden attribute 0 and about a hidden attribute 2^lm - 1 (everything else alike): no integer
+    of the serialized proof may have a bit length that tells them apart (uniform draws vary by a few bits; 40 bits is out of reach for them)"""
+    Q = _q(); rng = S.rng; cnt = 0
+    n = 2; U = [1]; lm = x.P["lm"]
+    docs = {"spok": [], "zkpok": []}
+    for m1 in (0, 2 ** lm - 1):
+        msgs = [Q.rmsg(rng), m1]
+        sig = Q.sign(S, x, msgs)
+        if sig is None: return 0
+        r = S.run([spokgen_line(x, sig, msgs, U)], expect="ok", label="triv:proof_gen(end-point attribute)")[0]
+        if r.status == "OK": docs["spok"].append(r.json(0))
+        f = issue(S, x, msgs, U, False, label="triv:issue(end-point attribute)")
+        if f: docs["zkpok"].append(f["zk"])
+    for what, dd in docs.items():
+        if len(dd) != 2: continue
+        la, lb = clj.leaves(dd[0]), clj.leaves(dd[1])
+        for (pa, va), (pb, vb) in zip(la, lb):
+            if pa != pb: continue
+            cnt += 1
+            if abs(abs(va).bit_length() - abs(vb).bit_length()) > 40:
+                name = ".".join(str(p_) for p_ in pa if p_ != "CL03")
+                _p().fail(S, "length-of-field-reveals-hidden-attribute|%s:%s" % (what, name), "bit lengths %d (attribute 0) and %d (attribute 2^lm - 1)" % (abs(va).bit_length(), abs(vb).bit_length()), [name])
+    return cnt
+
 def masking_attack(S, doc, challenges, secrets, what, sigma_only=True):
     """every response leaf / every recomputable challenge / every ordered pair of responses against every secret"""
     P = _p(); n = 0
@@ -888,6 +966,13 @@ class C19:
                 msgs = [Q.rmsg(rng) for _ in range(n)]
                 sig = Q.sign(S, x, msgs)
                 if suite == "toy" and sig is not None: stats["quotients"] += repeated_hidden_index_proofs(S, x, sig, msgs)
+                if sig is not None:
+                    # NOTHING hidden: the responses about e, s, v and the commitment randomness are masked all the same
+                    r0 = S.run([spokgen_line(x, sig, msgs, [])], expect="ok", label="triv:proof_gen(nothing hidden)")[0]
+                    if r0.status == "OK":
+                        doc0 = r0.json(0); dr0 = parse_draws(r0)
+                        sec0 = [("e", sig[0]), ("s", sig[1]), ("v", sig[2])] + [("randomness_%d" % k, v) for k, (kd, prm, v) in enumerate(dr0) if kd == "bits" and prm == [ln]]
+                        q_, r_ = masking_attack(S, doc0, [("c(spok)", clj.get(doc0["CL03"]["spok"], ("challenge",)))], sec0, "spok[nothing hidden]"); stats["quotients"] += q_; stats["responses"] += r_; stats["proofs"] += 1
                 # ALL non-empty subsets (non-prefix hidden sets such as [1], [0, 2] index the blinding vectors differently)
                 subsets = list(Q.all_subsets(n, nonempty=True)) if suite == "toy" else [[1], list(range(n))]
                 for U in subsets:
